@@ -16,8 +16,13 @@ Import ListNotations.
 (** [FDefer]: returns an unfired Deferred that fires later.  [FChain]: returns a Deferred that has ALREADY fired
     ([called] is true) but whose callback chain is suspended on a pending inner Deferred, so that its result only
     becomes available later ([succeed(x).addCallback(lambda _: inner)]).  "Result available" always means: the
-    returned Deferred's chain delivers a result to the callback run() added ([EFnDone]), never merely "fired". *)
-Inductive fn := FRet (v : Z) | FRaise | FDefer | FChain.
+    returned Deferred's chain delivers a result to the callback run() added ([EFnDone]), never merely "fired".
+    [FRaiseBase]: raises, synchronously, an exception that derives from BaseException but not from Exception
+    (asyncio.CancelledError, GeneratorExit, KeyboardInterrupt, an application subclass): maybeDeferred turns it into
+    a failed Deferred like any other exception, so the release happens all the same.
+    (Returning an already fired / failed Deferred, or being a coroutine function that returns / raises, is [FRet] /
+    [FRaise] for the model: maybeDeferred hands run() a fired Deferred in all those cases.) *)
+Inductive fn := FRet (v : Z) | FRaise | FDefer | FChain | FRaiseBase.
 
 (** simple operations (usable at top level and inside scripts) *)
 Inductive sop :=
@@ -33,7 +38,7 @@ Inductive op :=
 | AcqThen (sc : list sop)                (* acquire().addCallback(lambda _: sc) *)
 | RunThen (sc : list sop) (f : fn).      (* run(lambda: sc; then behave as f) *)
 
-Inductive outcome := OK (v : Z) | Boom | Cancelled.
+Inductive outcome := OK (v : Z) | Boom | Cancelled | BoomBase.
 
 Inductive ev :=
 | EWait (i : nat)                 (* acquire returned an unfired Deferred *)
@@ -160,6 +165,7 @@ Definition step (s : st) (it : item) : st * list item :=
   | IOp (RunThen sc f) => do_acquire (CRun sc f) s
   | IEndF j (FRet v) => fn_done HRunning j (OK v) s
   | IEndF j FRaise => fn_done HRunning j Boom s
+  | IEndF j FRaiseBase => fn_done HRunning j BoomBase s
   | IEndF j FDefer => (set_pending (j :: pending s) (set_running (remove_first j (running s)) s), [])
   | IEndF j FChain => (set_pending (j :: pending s) (set_running (remove_first j (running s)) s), [])
   | IResult j r => (emit (EResult j r) s, [])
